@@ -128,6 +128,10 @@ func init() {
 			for _, o := range c04Opts {
 				pairs(e, "c04:"+o, "U/"+o, u, u)
 			}
+			nd := NumDocs()
+			for _, o := range c04Opts {
+				pairs(e, "c04:"+o, "numbers/"+o, nd, nd)
+			}
 			k := Keyed(2, false)
 			k = thin(k, 300)
 			pairs(e, "c04:SETKEYS:id", "K/SETKEYS:id", k, k)
